@@ -2,6 +2,7 @@
 from functools import partial
 
 from props import docs_b
+from props import rawchars_b
 from props import lexical as LX
 from verif import extract
 from verif.common import Ctx, Ob, Outcome, Witness
@@ -139,5 +140,6 @@ def obligations(ctx: Ctx):
         Ob(f"{P}.T1.shape", "R", "quoted emission is one single-quoted STRING token", LX.FUNCS_EMIT + LX.FUNCS_LEX, partial(LX.ob_quoted_shape, oid=f"{P}.T1")),
         Ob(f"{P}.F2", "F", "key-specific quoting (PATTERN/REGEX) applies to string values only", ["octave_mcp.core.emitter:emit_assignment", "octave_mcp.core.emitter:_force_quote_inline_map_value"], ob_key_quoting_guard),
         Ob(f"{P}.F1", "F", "the parser builds sibling lists by append only", [PARSER + ":Parser.*"], ob_parser_append_only),
+        Ob(f"{P}.B3", "B", "comments are content: hand-made placements the document model cannot express (inside META) keep their text through read + write", ["octave_mcp.core.parser:parse", "octave_mcp.core.emitter:emit"], rawchars_b.ob_comments, timeout=600),
         Ob(f"{P}.B1", "B", "content read == content written == content of the canonical text, field by field against the model", ["octave_mcp.core.parser:parse", "octave_mcp.core.parser:parse_with_warnings", "octave_mcp.core.emitter:emit"], ob_b1, timeout=3000),
     ] + LX.parse_scalar_obs(P) + LX.emit_layout_obs(P)
